@@ -28,8 +28,8 @@ theorem tellAll_other (ts : List Cid) (s : Sys) (sys : Bool) (sender : Option Ci
     exact tell_own_other s sys sender t d m (fun hd => h (by rw [hd]; exact List.mem_cons_self ..))
 
 theorem C08_supervise_only_sends (s : Sys) (self : Cid) (chain : List (Cid × List Cid)) (c : Cid) :
-    life ((onSupervise s self chain).ctx c) = life (s.ctx c) :=
-  (sameS_onSupervise s self chain).2 c
+    life ((onSuperviseDecide s self chain).ctx c) = life (s.ctx c) :=
+  (sameS_onSuperviseDecide s self chain).2 c
 
 /-- The contexts a decision may touch. -/
 def affected (s : Sys) (self : Cid) (chain : List (Cid × List Cid)) : List Cid :=
@@ -94,9 +94,9 @@ macro "frame_steps" : tactic => `(tactic| (
 
 set_option maxHeartbeats 2000000 in
 theorem C08_supervise_touches_only_targets (s : Sys) (self : Cid) (chain : List (Cid × List Cid)) (d : Cid)
-    (hd : d ∉ affected s self chain) : (onSupervise s self chain).ctx d = s.ctx d := by
+    (hd : d ∉ affected s self chain) : (onSuperviseDecide s self chain).ctx d = s.ctx d := by
   unfold affected at hd
-  unfold onSupervise
+  unfold onSuperviseDecide
   cases chain with
   | nil =>
     by_cases hst : (s.ctx self).strat = 0 ∨ (s.ctx self).strat = 1 <;> cases hp : (s.ctx self).parent <;>
